@@ -186,7 +186,24 @@ def run(prop, tier):
     r2 = forked(list(reversed(hist_jobs)))
     for v in ("'s'", "1", "1.5", "True", "e.x"):
         r2 = r2 + poisoned(v)
-    recs = run_jobs(jobs[:n_main])
+    main_jobs = jobs[:n_main]
+    if len(main_jobs) > 60000:
+        # thorough tier: replay in parallel, one forked process per contiguous slice (records are independent)
+        W = 14
+        step = (len(main_jobs) + W - 1) // W
+        qs = []
+        for w in range(W):
+            sl = main_jobs[w * step:(w + 1) * step]
+            q = ctx.Queue()
+            pr = ctx.Process(target=lambda sl=sl, q=q: q.put(run_jobs(sl)))
+            pr.start()
+            qs.append((q, pr))
+        recs = []
+        for q, pr in qs:
+            recs += q.get()
+            pr.join()
+    else:
+        recs = run_jobs(main_jobs)
     recs += r1
     # second order: same jobs, new ids
     for r in r2:
